@@ -121,16 +121,22 @@ type cliScriptConn struct {
 	// virtual instant t (a peer that answers before WriteTo returns): WriteTo
 	// injects the datagram and returns only after the loop has read it and
 	// come back for the next datagram.
-	hooks    map[int64][]byte
-	injected int      // datagrams put on `in`
-	reads    int      // datagrams ReadFrom has returned
-	enter    chan int // ReadFrom announces (value of reads) every time it is entered
+	// failWrite: index (0-based, probe writes not counted) of the WriteTo that
+	// fails with an I/O error although the conn is open; -1 = none
+	failWrite int
+	nWrites   int
+	hooks     map[int64][]byte
+	injected  int      // datagrams put on `in`
+	reads     int      // datagrams ReadFrom has returned
+	enter     chan int // ReadFrom announces (value of reads) every time it is entered
 }
+
+var errCliConnWrite = fmt.Errorf("scripted conn: no buffer space available")
 
 var errCliConnClose = fmt.Errorf("scripted conn: close reports an I/O error")
 
 func cli_newScriptConn(now func() int64) *cliScriptConn {
-	return &cliScriptConn{now: now, in: make(chan []byte, 4096), closed: make(chan struct{}), enter: make(chan int, 1<<16)}
+	return &cliScriptConn{now: now, in: make(chan []byte, 4096), closed: make(chan struct{}), enter: make(chan int, 1<<16), failWrite: -1}
 }
 
 func (c *cliScriptConn) ReadFrom(b []byte) (int, net.Addr, error) {
@@ -164,6 +170,10 @@ func (c *cliScriptConn) WriteTo(b []byte, a net.Addr) (int, error) {
 	if c.probing {
 		c.probe = append(c.probe, r)
 		return len(b), nil
+	}
+	c.nWrites++
+	if c.nWrites-1 == c.failWrite {
+		return 0, errCliConnWrite
 	}
 	c.writes = append(c.writes, r)
 	if reply, ok := c.hooks[r.t]; ok {
